@@ -65,12 +65,18 @@ pub fn run(seed: u64, n: usize, driver: &str, out: &str) -> serde_json::Value {
     let mut merged_cases = 0u64;
     let mut dominant_cases = 0u64;
     for case in 0..n {
-        let len = match rng.below(10) {
-            0 => rng.range(21, 64),
-            1 => rng.range(17, 24),
-            _ => rng.range(1, 20),
+        // a few containers hold matches of payloads above TOO_BIG_SEQUENCE (no merging there)
+        let heavy = case % 97 == 11;
+        let len = if heavy {
+            rng.range(2, 4)
+        } else {
+            match rng.below(10) {
+                0 => rng.range(21, 64),
+                1 => rng.range(17, 24),
+                _ => rng.range(1, 20),
+            }
         };
-        *sizes.entry(if len <= 20 { "<=20" } else { ">20" }).or_insert(0u64) += 1;
+        *sizes.entry(if heavy { "heavy-payload" } else if len <= 20 { "<=20" } else { ">20" }).or_insert(0u64) += 1;
         // a cyclic / tie-heavy key population: few distinct chaos values close together
         let pal: Vec<f32> = (0..rng.range(1, 5)).map(|_| *rng.pick(&cg)).collect();
         let hpal: Vec<f32> = (0..rng.range(1, 4)).map(|_| *rng.pick(&hg)).collect();
@@ -89,7 +95,11 @@ pub fn run(seed: u64, n: usize, driver: &str, out: &str) -> serde_json::Value {
             let chaos = if rng.chance(1, 6) { *rng.pick(&cg) } else { *rng.pick(&pal) };
             let coh = if rng.chance(1, 4) { "-".to_string() } else { format!("English:{}", fbits(*rng.pick(&hpal))) };
             let enc = ENCS[i % ENCS.len()].to_string();
-            let payload: Vec<u8> = (0..payload_len + (if rng.chance(1, 3) { chars } else { 0 })).map(|_| b'x').collect();
+            let payload: Vec<u8> = if heavy {
+                vec![b'x'; charset_normalizer_rs::consts::TOO_BIG_SEQUENCE + 1 + rng.below(3)]
+            } else {
+                (0..payload_len + (if rng.chance(1, 3) { chars } else { 0 })).map(|_| b'x').collect()
+            };
             items.push((enc, fbits(chaos), rng.chance(1, 9), coh, payload, Some(text)));
         }
         let reals: Vec<CharsetMatch> = items.iter().map(|it| build(it, english)).collect();
